@@ -30,15 +30,109 @@ class Lint:
     message: str
 
 
+ITERTOOLS_ONE_SHOT = {"chain", "chain.from_iterable", "islice", "takewhile", "dropwhile", "starmap", "compress", "filterfalse", "accumulate", "zip_longest", "product", "combinations", "permutations", "combinations_with_replacement", "groupby", "pairwise", "batched", "tee"}
+
+_OS_CACHE: dict = {}
+
+
+def _one_shot_producers(model: Model) -> tuple[dict, dict]:
+    """(functions, properties) of the package every ``return`` of which hands out a one-shot iterator:
+    qualname -> kind, and property name -> kind (a property is evaluated on attribute access)."""
+    key = id(model)
+    if key in _OS_CACHE:
+        return _OS_CACHE[key]
+    funcs: dict[str, str] = {}
+    props: dict[str, str] = {}
+    _OS_CACHE.clear()
+    _OS_CACHE[key] = (funcs, props)
+    changed = True
+    rounds = 0
+    while changed and rounds < 4:
+        changed = False
+        rounds += 1
+        for f in model.functions.values():
+            if f.qualname in funcs:
+                continue
+            if any(isinstance(n, (ast.Yield, ast.YieldFrom)) for n in ast.walk(f.node)):
+                kind = f"generator {f.name}(...)"
+            else:
+                rets = [n for n in ast.walk(f.node) if isinstance(n, ast.Return) and n.value is not None]
+                kinds = [_is_one_shot(model, f, r.value) for r in rets]
+                kind = kinds[0] if kinds and all(k is not None for k in kinds) else None
+                if kind is not None:
+                    kind = f"{kind} returned by {f.name}"
+            if kind is not None:
+                funcs[f.qualname] = kind
+                if f.is_property:
+                    props[f.name] = kind
+                changed = True
+    return funcs, props
+
+
+def _callable_returns_one_shot(model: Model, fn: FunctionInfo, e: ast.expr) -> str | None:
+    """``e`` is a callable (lambda / function name) whose result is a one-shot iterator."""
+    if isinstance(e, ast.Lambda):
+        return _is_one_shot(model, fn, e.body)
+    if isinstance(e, ast.Name):
+        r = model.resolve_global(fn.module, e.id)
+        if r and r[0] == "func":
+            return _one_shot_producers(model)[0].get(r[1].qualname)
+    return None
+
+
+def _param_callable_kind(model: Model, fn: FunctionInfo, pname: str) -> str | None:
+    """A parameter that is called in ``fn``: does some caller in the package pass a callable returning a one-shot iterator?"""
+    names = [p.name for p in fn.params]
+    if pname not in names:
+        return None
+    idx = names.index(pname) - (1 if fn.cls is not None and fn.self_name and not fn.is_staticmethod else 0)
+    for g in model.functions.values():
+        for n in ast.walk(g.node):
+            if not isinstance(n, ast.Call):
+                continue
+            f = n.func
+            cname = f.id if isinstance(f, ast.Name) else f.attr if isinstance(f, ast.Attribute) else None
+            if cname != fn.name:
+                continue
+            arg = None
+            if 0 <= idx < len(n.args) and not any(isinstance(a, ast.Starred) for a in n.args[: idx + 1]):
+                arg = n.args[idx]
+            for k in n.keywords:
+                if k.arg == pname:
+                    arg = k.value
+            if arg is not None:
+                kind = _callable_returns_one_shot(model, g, arg)
+                if kind is not None:
+                    return f"{kind} (callable passed at {g.module.relpath}:{n.lineno})"
+    return None
+
+
 def _is_one_shot(model: Model, fn: FunctionInfo, e: ast.expr) -> str | None:
     if isinstance(e, ast.GeneratorExp):
         return "generator expression"
     if isinstance(e, ast.Call) and isinstance(e.func, ast.Name) and e.func.id in ONE_SHOT_CALLS:
         return f"{e.func.id}(...)"
+    if isinstance(e, ast.Call):
+        dotted = ast.unparse(e.func)
+        head, _, rest = dotted.partition(".")
+        r = model.resolve_global(fn.module, head)
+        full = (r[1] + ("." + rest if rest else "")) if r and r[0] == "ext" else None
+        if full and full.startswith("itertools.") and full[len("itertools.") :] in ITERTOOLS_ONE_SHOT:
+            return f"{dotted}(...)"
     if isinstance(e, ast.Call) and isinstance(e.func, ast.Name):
         r = model.resolve_global(fn.module, e.func.id)
-        if r and r[0] == "func" and any(isinstance(n, (ast.Yield, ast.YieldFrom)) for n in ast.walk(r[1].node)):
-            return f"generator {e.func.id}(...)"
+        if r and r[0] == "func":
+            if any(isinstance(n, (ast.Yield, ast.YieldFrom)) for n in ast.walk(r[1].node)):
+                return f"generator {e.func.id}(...)"
+            k = _one_shot_producers(model)[0].get(r[1].qualname) if id(model) in _OS_CACHE else None
+            if k is not None:
+                return k
+        if r is None and e.func.id in {p.name for p in fn.params}:
+            return _param_callable_kind(model, fn, e.func.id)
+    if isinstance(e, ast.Attribute) and id(model) in _OS_CACHE:
+        k = _OS_CACHE[id(model)][1].get(e.attr)
+        if k is not None:
+            return k
     return None
 
 
@@ -211,16 +305,95 @@ def bisect_unsorted(model: Model, fn: FunctionInfo) -> list[Lint]:
             continue
         if not n.args:
             continue
-        seq = ast.unparse(n.args[0])
-        if seq.endswith(".records") or seq.endswith("_synonyms") or seq.endswith("._all_prefixes") or seq.endswith("._all_uri_prefixes"):
-            out.append(Lint("bisect-unsorted", fn, n.lineno, seq.rsplit(".", 1)[-1], f"`{name}({seq}, ...)`: binary search over `{seq}`, which is not kept sorted (add_record appends new records at the end; synonym lists are sorted only by _merge / add_prefix): present entries are missed or the wrong one is hit"))
+        arg = n.args[0]
+        # a local name: judge the expression it was bound to (unless the function sorts that name itself)
+        hops = 0
+        while isinstance(arg, ast.Name) and hops < 3:
+            hops += 1
+            if any(isinstance(c, ast.Call) and isinstance(c.func, ast.Attribute) and c.func.attr == "sort" and isinstance(c.func.value, ast.Name) and c.func.value.id == arg.id for c in ast.walk(fn.node)):
+                arg = None
+                break
+            binds = [a.value for a in ast.walk(fn.node) if isinstance(a, ast.Assign) and any(isinstance(t, ast.Name) and t.id == arg.id for t in a.targets)]
+            if len(binds) != 1:
+                break
+            arg = binds[0]
+        if arg is None:
+            continue
+
+        def unsorted_source(e):
+            """The unsorted sequence an expression enumerates in its own order (through comprehensions, list(), map())."""
+            if isinstance(e, ast.Call) and isinstance(e.func, ast.Name) and e.func.id == "sorted":
+                return None
+            if isinstance(e, ast.Attribute) and (e.attr == "records" or e.attr.endswith("_synonyms") or e.attr in ("_all_prefixes", "_all_uri_prefixes")):
+                return ast.unparse(e)
+            if isinstance(e, (ast.ListComp, ast.GeneratorExp)) and e.generators:
+                return unsorted_source(e.generators[0].iter)
+            if isinstance(e, ast.Call) and isinstance(e.func, ast.Name) and e.func.id in ("list", "tuple") and len(e.args) == 1:
+                return unsorted_source(e.args[0])
+            if isinstance(e, ast.Call) and isinstance(e.func, ast.Name) and e.func.id == "map" and len(e.args) == 2:
+                return unsorted_source(e.args[1])
+            return None
+
+        seq = unsorted_source(arg)
+        if seq is not None:
+            out.append(Lint("bisect-unsorted", fn, n.lineno, seq.rsplit(".", 1)[-1], f"`{name}({ast.unparse(n.args[0])[:60]}, ...)`: binary search over `{seq}`, which is not kept sorted (add_record appends new records at the end; synonym lists are sorted only by _merge / add_prefix): present entries are missed or the wrong one is hit"))
     return out
+
+
+SIZE_CHANGERS = {"remove", "pop", "insert", "append", "extend", "clear", "popitem", "discard", "add", "update", "setdefault", "sort", "reverse"}
+
+
+def mutate_while_iterating(model: Model, fn: FunctionInfo) -> list[Lint]:
+    """``for x in xs: ... xs.remove(x)``: the container that is being iterated is resized (or reordered) in the
+    loop body - the iterator skips or repeats elements (lists) or raises (dicts, sets) - unless the loop is left
+    immediately afterwards."""
+    out: list[Lint] = []
+    for loop in ast.walk(fn.node):
+        if not isinstance(loop, (ast.For, ast.AsyncFor)):
+            continue
+        it = loop.iter
+        if isinstance(it, ast.Call) and isinstance(it.func, ast.Attribute) and it.func.attr in ("items", "keys", "values") and not it.args:
+            it = it.func.value
+        if isinstance(it, ast.Call) and isinstance(it.func, ast.Name) and it.func.id in ("enumerate", "reversed", "iter") and it.args:
+            it = it.args[0]
+        if not isinstance(it, (ast.Name, ast.Attribute)):
+            continue
+        src = ast.unparse(it)
+
+        def walk_block(stmts):
+            for i, st in enumerate(stmts):
+                hit = None
+                for n in ast.walk(st):
+                    if isinstance(n, (ast.FunctionDef, ast.AsyncFunctionDef, ast.Lambda)):
+                        continue
+                    if isinstance(n, ast.Call) and isinstance(n.func, ast.Attribute) and n.func.attr in SIZE_CHANGERS and ast.unparse(n.func.value) == src:
+                        hit = (n, f".{n.func.attr}()")
+                    elif isinstance(n, ast.Delete) and any(isinstance(t, ast.Subscript) and ast.unparse(t.value) == src for t in n.targets):
+                        hit = (n, "del ...[...]")
+                if hit is not None and isinstance(st, (ast.Expr, ast.Delete, ast.Assign, ast.AugAssign)):
+                    nxt = stmts[i + 1] if i + 1 < len(stmts) else None
+                    if not isinstance(nxt, (ast.Break, ast.Return, ast.Raise)):
+                        out.append(Lint("mutate-while-iterating", fn, hit[0].lineno, src.rsplit(".", 1)[-1], f"`{src}` is changed ({hit[1]}) inside the loop that iterates it (line {loop.lineno}): after a removal the next element is skipped, after an insertion one is visited twice; dictionaries and sets raise"))
+                for sub in ("body", "orelse", "handlers", "finalbody"):
+                    inner = getattr(st, sub, None)
+                    if isinstance(inner, list) and not isinstance(st, (ast.FunctionDef, ast.AsyncFunctionDef, ast.ClassDef)):
+                        walk_block([x for x in inner if isinstance(x, ast.stmt)] + [y for x in inner if isinstance(x, ast.ExceptHandler) for y in x.body])
+
+        walk_block(loop.body)
+    # one report per line
+    seen, uniq = set(), []
+    for l in out:
+        if (l.line, l.name) not in seen:
+            seen.add((l.line, l.name))
+            uniq.append(l)
+    return uniq
 
 
 def scan(model: Model, files: set[str] | None = None) -> tuple[list[Lint], int]:
     """All lints for the functions defined in ``files`` (relative paths under src/curies; None = everything)."""
     out: list[Lint] = []
     n = 0
+    _one_shot_producers(model)
     for fn in model.functions.values():
         if files is not None and fn.module.relpath not in files:
             continue
@@ -228,4 +401,5 @@ def scan(model: Model, files: set[str] | None = None) -> tuple[list[Lint], int]:
         out += one_shot_reuse(model, fn)
         out += mutable_defaults(model, fn)
         out += bisect_unsorted(model, fn)
+        out += mutate_while_iterating(model, fn)
     return out, n
